@@ -99,10 +99,22 @@ def _r151_152(ctx: Ctx) -> None:
     dci = m.cls('DirectSimulation')
     init = dci.methods['__init__']
     per_trial = set()
+    lits = []
     for n in ast.walk(init):
         if isinstance(n, ast.Assign) and isinstance(n.targets[0], ast.Attribute) and n.targets[0].attr == '_results' \
                 and isinstance(n.value, ast.Dict):
-            for k, v in zip(n.value.keys, n.value.values):
+            lits.append(n.value)
+        # self._results.update({...}) / self._results |= {...}
+        if isinstance(n, ast.Call) and isinstance(n.func, ast.Attribute) and n.func.attr == 'update' \
+                and isinstance(n.func.value, ast.Attribute) and n.func.value.attr == '_results' and n.args \
+                and isinstance(n.args[0], ast.Dict):
+            lits.append(n.args[0])
+        if isinstance(n, ast.AugAssign) and isinstance(n.target, ast.Attribute) and n.target.attr == '_results' \
+                and isinstance(n.value, ast.Dict):
+            lits.append(n.value)
+    for lit in lits:
+        if True:
+            for k, v in zip(lit.keys, lit.values):
                 if k is not None and isinstance(k, ast.Constant) and isinstance(v, ast.List):
                     per_trial.add(k.value)
     ctx.need(per_trial, 'R15.1', site_of(dci.module, init), 'per-trial keys of DirectSimulation._results not found')
